@@ -9,7 +9,7 @@ from hypothesis import strategies as st
 from pbt import strategies as S
 from pbt.common import Stats, Sub, Violation
 from pbt.model import Model
-from pbt.sut import mk_incremental_queried, mk_split_merge, query_everything, curies, mk_converter
+from pbt.sut import history_variants, mk_incremental_queried, mk_split_merge, query_everything, curies, mk_converter
 
 PROPERTY_ID = "C08"
 RULE = (
@@ -189,19 +189,14 @@ def _check_on(c, case, stats: Stats) -> None:
 def check(case, stats: Stats) -> None:
     spec = case["spec"]
     _check_on(mk_converter(spec), case, stats)
-    # same laws on a converter grown record by record / synonym by synonym with all queries issued after every mutation
-    n = len(spec["records"])
-    inc = mk_incremental_queried(spec, list(reversed(range(n))), lambda c: query_everything(c, case["strings"], case["pairs"]))
-    try:
-        _check_on(inc, case, Stats())
-    except Violation as v:
-        v.message = "[converter built incrementally with interleaved queries] " + v.message
-        raise
-    try:
-        _check_on(mk_split_merge(spec), case, Stats())
-    except Violation as v:
-        v.message = "[converter built by merging whole records that are named after a synonym] " + v.message
-        raise
+    # the same laws on the same converter reached through every other history (grown string by string with all queries
+    # issued after every mutation, merged from whole records, case-insensitive merges, by-standing input of derivations)
+    for how, conv in history_variants(spec, lambda c: query_everything(c, case["strings"], case["pairs"]), base=False):
+        try:
+            _check_on(conv, case, Stats())
+        except Violation as v:
+            v.message = f"[converter {how}] " + v.message
+            raise
 
 
 SUBS = [
